@@ -14,7 +14,7 @@ GUARD_KEYS = ('gdown4', 'gammadown3', 'Kdown3', 'betaup3', 'dtbetaup3',
               'st_Riemann_down4', 'Momentumx', 'Weyl_Psi4r', 'betax')
 REDUCED = ['gdown4', 'gammadown3', 'Kdown3', 'betaup3', 'dtbetaup3', 'rho',
            'rho0', 'Tdown4', 's_Riemann_down3', 'st_Ricci_down4',
-           'Momentumx', 'st_Riemann_down4',
+           'Momentumx', 'Momentumy', 'Momentumdownx', 'st_Riemann_down4',
            'gtt', 'gtx', 'gdet', 'gxx', 'kxy', 'betax', 'dtbetay', 'eps',
            'Ttrace', 's_Ricci_down3', 'st_Ricci_down3', 'Momentumup3',
            'st_Weyl_down4', 'Weyl_Psi',
